@@ -268,8 +268,11 @@ def run_js_family(prop, tier, seed):
                "tokens of which a random number are held by scripted other make jobs; outcomes "
                "enumerated per workload: success, error return at each of 8 sites, unwinding panic at "
                "each of 15 phase boundaries (+2 in fork mode), plus panics at random scheduler steps; "
-               "fork and --no-fork; no --threads argument. Oracle: pool_built event has threads <= "
-               "tokens+1 and tokens <= available; after wild and every descendant exited the fifo/pipe "
+               "fork and --no-fork; no --threads argument; plus genuine failures through the system-call "
+               "fault seam. Oracle: pool_built event has threads <= tokens+1 and tokens <= available; the "
+               "pool actually built (simulated machine with 1-4 CPUs) has <= tokens+1 threads, also "
+               "against the tokens held mid-link as counted from outside (fifo drained and refilled "
+               "while wild is parked at a phase boundary); after wild and every descendant exited the fifo/pipe "
                "holds as many tokens as before. distinct_nontrivial = distinct (workload, interleaving, "
                "fault) with a context switch")
     ev.assumptions = ["abort/kill outcomes are outside the property (nobody can return a dead process's "
@@ -321,7 +324,7 @@ def run_err_family(prop, tier, seed):
 
 REQUIRED_PROBES = {
     "C35": ["runs_with_tokens", "fired_err", "fired_panic", "style_fifo", "style_pipe", "fork",
-            "nofork"],
+            "nofork", "mid_link_token_probes", "fired_sysfault"],
     "C21": ["kind_exe", "kind_shared", "relink_ok", "probe_old_output_renamed_away"],
     "C20": ["inwindow_role_object", "inwindow_role_archive", "inwindow_role_thin-archive-index",
             "inwindow_role_thin-member", "inwindow_role_linker-script", "inwindow_role_script-input",
